@@ -20,9 +20,10 @@ def run(ctx) -> None:
         fn(ctx)
     ctx.rules_run.append("D2")
     presence.rule_D2(ctx)   # the reference's HasField / WhichOneof sees a member only if dump emits it
-    from .c15 import rule_Q1, rule_Q2, rule_Q6
-    ctx.rules_run += ["Q1", "Q2", "Q6"]
-    rule_Q1(ctx)            # the reference reads (seconds, nanos) of a Timestamp / Duration as written: the split has to be the canonical, exact one
+    from .c15 import rule_Q1, rule_Q1b, rule_Q2, rule_Q6
+    ctx.rules_run += ["Q1", "Q1b", "Q2", "Q6"]
+    rule_Q1(ctx)
+    rule_Q1b(ctx)            # the reference reads (seconds, nanos) of a Timestamp / Duration as written: the split has to be the canonical, exact one
     rule_Q2(ctx)
     rule_Q6(ctx)            # what the reference wrote is decoded value by value (parse() into a reused object merges values)
     ctx.floor("W1", "table entries", len([o for o in ctx.obs if o.rule == "W1"]), 30)
